@@ -7,12 +7,15 @@ PF = ["lexical_core::parse", "lexical_core::parse_partial", "lexical_parse_integ
 
 def plan(tier, seed):
     groups = []
-    k1 = [H("c04::k1_%s_4" % t, "parse+parse_partial::<%s> vs reference scan, arbitrary bytes" % t, "len<=4, all 256 byte values") for t in INT_TYPES + (PTR_TYPES if tier == "thorough" else [])]
+    if tier == "quick":
+        k1 = [H("c04::k1_%s_4" % t, "parse+parse_partial::<%s> vs reference scan, arbitrary bytes" % t, "len<=4, all 256 byte values") for t in INT_TYPES]
+    else:
+        k1 = [H("c04::k1_%s_4" % t, "parse+parse_partial::<%s> vs reference scan, arbitrary bytes" % t, "len<=4, all 256 byte values") for t in INT_TYPES + PTR_TYPES]
     swar = [H("c04::swar::swar4_r10", "is_4digits/parse_4digits", "all 2^32 words")]
     if tier == "quick":
         k2 = [H("c04::k2_u8_5", "overflow frontier u8: [sign]digits + one arbitrary byte", "len<=5")]
         groups.append(KGroup("D", k1 + swar + k2, timeout=800, jobs=12, mem_gb=12))
-        radix = [H("c04::radix::k4_u8_r2_9", "radix 2, u8", "len<=9"), H("c04::radix::k4_u16_r16_5", "radix 16, u16", "len<=5"),
+        radix = [H("c04::radix::k4_u8_r2_6", "radix 2, u8", "len<=6"), H("c04::radix::k4_u16_r16_5", "radix 16, u16", "len<=5"),
                  H("c04::radix::generic::k4_u8_r36", "radix 36, u8 (letters in both cases)", "len<=4"),
                  H("c04::radix::generic::k2_u8_r36", "radix 36 overflow frontier u8", "len<=4")]
         extra = pick(["c04::radix::generic::k4_u8_r%d" % r for r in (3, 5, 6, 7, 9, 11, 12, 13, 14, 15, 17, 18, 19, 20, 21, 22, 23, 24, 25, 26, 27, 28, 29, 30, 31, 33, 34, 35)], seed, 2)
